@@ -31,6 +31,16 @@ def addends(t):
     return [t]
 
 
+def trunc32_inner(p):
+    """x when p is x truncated to 32 bits and zero-extended again: `x & 0xffff_ffff`, `x as u32 as u64`, `u64::from(x as u32)`"""
+    p = U.strip(p)
+    if p[0] == "bin" and p[1] == "BitAnd" and A.is_int(p[3]) and p[3][1] == 0xFFFFFFFF:
+        return p[2]
+    if p[0] == "cast" and p[2] == 64 and p[4] == 32:
+        return p[1]
+    return None
+
+
 def seg_variant(facts, name):
     ev = facts.enum_variant_by_name(SEGREG, name)
     return ("agg", "adt:" + SEGREG, ev[0], ())
@@ -122,13 +132,13 @@ def formula(ctx):
                     if abits == 32:
                         # (base + index*scale + disp) & 0xffffffff, then the segment base
                         parts = addends(val)
-                        inner = [p_ for p_ in parts if p_[0] == "bin" and p_[1] == "BitAnd" and A.is_int(p_[3]) and p_[3][1] == 0xFFFFFFFF]
+                        inner = [p_ for p_ in parts if trunc32_inner(p_) is not None]
                         rest = [p_ for p_ in parts if p_ not in inner]
                         if len(inner) != 1:
                             ck.violation("C05.formula", inst, "32-bit effective address is not truncated to 32 bits: %s" % A.show(val),
                                          what="address-size override: the sum must wrap at 2^32 before the segment base is added")
                             continue
-                        got = sorted(map(repr, addends(inner[0][2]))) + sorted(map(repr, rest))
+                        got = sorted(map(repr, addends(trunc32_inner(inner[0])))) + sorted(map(repr, rest))
                     else:
                         got = sorted(map(repr, addends(val)))
                     exp = []
